@@ -1,5 +1,7 @@
 import CoxeterVerif.Vec
 import CoxeterVerif.Model.ConvexPolyhedron
+import CoxeterVerif.Model.Polygon
+import CoxeterVerif.Spec.Planar3
 /-!
   Model of the measure code of `coxeter/shapes/polyhedron.py` (general, possibly non-convex
   polyhedra) and of the vendored ear-clipping `coxeter/extern/polytri/polytri.py`.
@@ -159,5 +161,119 @@ def inertiaCentred (S : List (Tri α)) (c : V3 α) : M3 α :=
 /-- `inertia_tensor` -/
 def inertia (S : List (Tri α)) (c : V3 α) (vol : α) : M3 α :=
   CP.translateInertia c (inertiaCentred S c) vol
+
+/-! ### the object level: faces as vertex lists, `get_face_area`, `_surface_triangulation`, the five
+    observables with their error paths -/
+
+/-- `cross(v[f[2]] − v[f[1]], v[f[0]] − v[f[1]])`: the (unnormalised) normal `_find_equations` and
+    `Polygon.__init__` take from the FIRST corner of the face -/
+def cornerCross (vs : List (V3 α)) : V3 α :=
+  V3.cross (vs.getD 2 V3.zero - vs.getD 1 V3.zero) (vs.getD 0 V3.zero - vs.getD 1 V3.zero)
+
+/-- `_find_equations` for a face given by its vertices in order -/
+def faceEq (vs : List (V3 α)) : V3 α × α :=
+  faceEquation (vs.getD 0 V3.zero) (vs.getD 1 V3.zero) (vs.getD 2 V3.zero)
+
+/-- `np.isclose(a, b, rtol, atol)` for finite arguments -/
+def isclose (a b rtol atol : α) : Bool := decide (Scalar.abs (a - b) ≤ atol + rtol * Scalar.abs b)
+
+/-- `len(np.unique(vertices, axis=0)) != len(vertices)` -/
+def hasDup : List (V3 α) → Bool
+  | [] => false
+  | v :: l => l.any (Polytri.veq v) || hasDup l
+
+/-- `get_face_area` for one face: `ConvexPolygon(self.vertices[face], planar_tolerance=1e-4).area`.
+    External: `hullCount` = `len(ConvexHull(aligned[:, :2]).vertices)` (Qhull, inside `_is_convex`),
+    `reordered` = the vertex order `_reorder_verts` leaves (angle sort about the vertex mean).
+    Every rejection is a `ValueError`: fewer than 3 vertices, duplicate vertices, degenerate first corner
+    (nan normal fails the coplanarity test), a vertex off the plane of the first corner
+    (`np.isclose(n·v, d, 1e-4)`: rtol = 1e-4, atol = 1e-8), not all vertices on the hull (non-convex face,
+    or a vertex inside an edge). -/
+def faceArea (vs : List (V3 α)) (hullCount : Nat) (reordered : List (V3 α)) : Except String α :=
+  if vs.length < 3 then .error "ValueError"
+  else if hasDup vs then .error "ValueError"
+  else
+    let c := cornerCross vs
+    let nrm := V3.norm c
+    if Scalar.eqb nrm (lit 0) then .error "ValueError"
+    else
+      let n := V3.sdiv c nrm
+      let d := V3.dot n (vs.getD 0 V3.zero)
+      if !(vs.all fun v => isclose (V3.dot n v) d (q 1 10000) (q 1 100000000)) then .error "ValueError"
+      else if hullCount != vs.length then .error "ValueError"
+      else .ok (Poly2.area reordered n)
+
+/-- all face areas (the loop of `get_face_area`: the first failing face raises) -/
+def faceAreas : List (List (V3 α) × Nat × List (V3 α)) → Except String (List α)
+  | [] => .ok []
+  | (vs, h, r) :: fs =>
+    match faceArea vs h r with
+    | .error e => .error e
+    | .ok a => match faceAreas fs with
+      | .error e => .error e
+      | .ok as => .ok (a :: as)
+
+/-- `_surface_triangulation`: `polytri.triangulate(self.vertices[face])` face after face (the first
+    face that cannot be clipped raises) -/
+def surfaceTriangulation : List (List (V3 α)) → Except String (List (Tri α))
+  | [] => .ok []
+  | f :: fs =>
+    match Polytri.triangulate f with
+    | .error e => .error e
+    | .ok t => match surfaceTriangulation fs with
+      | .error e => .error e
+      | .ok r => .ok (t ++ r)
+
+/-- `volume` from the faces: `ds = -equations[:, 3]`, `np.sum(ds * get_face_area()) / 3` -/
+def volumeOf (faces : List (List (V3 α))) (areas : List α) : α :=
+  volume (List.zipWith (fun vs a => ((faceEq vs).2, a)) faces areas)
+
+/-- `surface_area` -/
+def surfaceArea (areas : List α) : α := Scalar.sum areas
+
+/-- the observables of the property for a polyhedron given by its faces (vertex lists in order) and the
+    external data of `get_face_area`: `(volume, surface_area, face areas)`, `centroid`, `inertia_tensor` -/
+structure Observed (α : Type) where
+  areas : Except String (α × α × List α)
+  centroid : Except String (V3 α)
+  inertia : Except String (M3 α)
+
+def observe (faces : List (List (V3 α) × Nat × List (V3 α))) : Observed α :=
+  let fv := faces.map (·.1)
+  let ar : Except String (α × α × List α) :=
+    match faceAreas faces with
+    | .error e => .error e
+    | .ok as => .ok (volumeOf fv as, surfaceArea as, as)
+  let S := surfaceTriangulation fv
+  let cen : Except String (V3 α) := match S with | .error e => .error e | .ok s => .ok (centroid s)
+  -- inertia_tensor: _compute_inertia_tensor() (triangulation, self.center), then self.volume
+  let ine : Except String (M3 α) :=
+    match S with
+    | .error e => .error e
+    | .ok s =>
+      match ar with
+      | .error e => .error e
+      | .ok (vol, _, _) => .ok (inertia s (centroid s) vol)
+  ⟨ar, cen, ine⟩
+
+/-! ### certificate checkers for the hypotheses of `poly_volume_exact_faces` (exact at `Rat`) -/
+
+/-- the face lies exactly in the plane of its first corner: `cc · v = cc · v₀` for every vertex -/
+def planarCheck (vs : List (V3 α)) : Bool :=
+  let cc := cornerCross vs
+  let d0 := V3.dot cc (vs.getD 0 V3.zero)
+  vs.all fun v => Scalar.eqb (V3.dot cc v) d0
+
+/-- the first corner is not reflex: it turns the way the polygon does (`cc · areaVector > 0`) -/
+def ccwCheck (vs : List (V3 α)) : Bool :=
+  decide (lit 0 < V3.dot (cornerCross vs) (Spec3.areaVector vs))
+
+/-- the ear clipping succeeds with `n − 2` triangles -/
+def clipCheck (vs : List (V3 α)) : Bool :=
+  match Polytri.triangulate vs with
+  | .ok T => decide (vs.length ≤ T.length + 2)
+  | .error _ => false
+
+def faceCheck (vs : List (V3 α)) : Bool := planarCheck vs && ccwCheck vs && clipCheck vs
 
 end Poly3
